@@ -240,6 +240,7 @@ fn catalog() -> i32 {
                     roots: vec![],
                     out_sub: String::new(),
                     obstacle: 0,
+                    wall_clock: 0,
                 };
                 let out = sc.out();
                 let o = exec::run_invocation(&mut sc, &tree, &inv, &out);
